@@ -138,21 +138,24 @@ func (f *function) diffEnv() (bool, string, diff.ValueDiff, error) {
 		return false, "target has never been run", nil, nil
 	}
 
-	// Environments with identical encodings are equal. Besides being cheap, this is the
-	// only comparison that terminates for self-referential data: structural comparison
-	// of cyclic values exceeds the recursion limit.
-	if f.oldPickle != nil && bytes.Equal(f.oldPickle, f.newPickle) {
-		return true, "", nil, nil
-	}
-
-	eq, err := starlark.EqualDepth(f.oldEnv, f.newEnv, 1000)
-	if err != nil {
-		// The encodings differ and the values cannot be compared structurally (cyclic
-		// data): the environment changed, but there is no diff to show.
-		return false, "environment changed", nil, nil
-	}
-	if eq {
-		return true, "", nil, nil
+	if f.oldPickle != nil && f.newPickle != nil {
+		// Environments with identical encodings are equal. Besides being cheap, this is the
+		// only comparison that terminates for self-referential data: structural comparison
+		// of cyclic values exceeds the recursion limit.
+		if bytes.Equal(f.oldPickle, f.newPickle) {
+			return true, "", nil, nil
+		}
+		// The encodings differ, so the environments differ, even if every value in them
+		// compares equal: 7 == 7.0 and True == 1 in Starlark, but a function that now sees
+		// 7.0 where it saw 7 has changed.
+	} else {
+		eq, err := starlark.EqualDepth(f.oldEnv, f.newEnv, 1000)
+		if err != nil {
+			return false, "environment changed", nil, nil
+		}
+		if eq {
+			return true, "", nil, nil
+		}
 	}
 
 	oldEnv, ok := f.oldEnv.(*starlark.Dict)
@@ -165,13 +168,11 @@ func (f *function) diffEnv() (bool, string, diff.ValueDiff, error) {
 	}
 
 	d, err := diff.DiffDepth(f.oldEnv, f.newEnv, 1000)
-	if err != nil {
-		// As above: cyclic data cannot be diffed structurally.
-		return false, "environment changed", nil, nil
-	}
 	md, ok := d.(*diff.MappingDiff)
-	if !ok {
-		panic(fmt.Errorf("expected a diff in unequal environments"))
+	if err != nil || !ok {
+		// Cyclic data cannot be diffed structurally, and values that differ only in type
+		// have no structural diff: the environment changed, but there is no diff to show.
+		return false, "environment changed", nil, nil
 	}
 
 	var reasons []string
